@@ -38,7 +38,39 @@ pub fn some_events(db: &mut Database, r: &mut Rng, n: u16, count: usize, t0: u64
     for k in 0..count {
         let i = r.below(n.max(1) as u64) as u16;
         let t = Time::synchronized(t0 + k as u64);
-        match r.below(4) {
+        match r.below(8) {
+            4 => {
+                db.update(
+                    i,
+                    &DoubleBitBinaryInput::new(
+                        [DoubleBit::Intermediate, DoubleBit::DeterminedOff, DoubleBit::DeterminedOn, DoubleBit::Indeterminate][r.usize_below(4)],
+                        Flags::ONLINE,
+                        t,
+                    ),
+                    UpdateOptions::new(true, EventMode::Force),
+                );
+            }
+            5 => {
+                db.update(
+                    i,
+                    &BinaryOutputStatus::new(r.bool(), Flags::ONLINE, t),
+                    UpdateOptions::new(true, EventMode::Force),
+                );
+            }
+            6 => {
+                db.update(
+                    i,
+                    &FrozenCounter::new(r.u32(), Flags::ONLINE, t),
+                    UpdateOptions::new(true, EventMode::Force),
+                );
+            }
+            7 => {
+                db.update(
+                    i,
+                    &AnalogOutputStatus::new(r.u32() as f64 / 7.0, Flags::ONLINE, t),
+                    UpdateOptions::new(true, EventMode::Force),
+                );
+            }
             0 => {
                 db.update(
                     i,
